@@ -3,6 +3,7 @@ package bebop
 import (
 	"bytes"
 	"fmt"
+	gotoken "go/token"
 	"io"
 	"os"
 	"path"
@@ -830,7 +831,12 @@ func unexposeName(name string) string {
 	if size == 0 {
 		return ""
 	}
-	return string(unicode.ToLower(first)) + name[size:]
+	unexposed := string(unicode.ToLower(first)) + name[size:]
+	if gotoken.IsKeyword(unexposed) {
+		// `type`, `range`, `func`... cannot be used as a go identifier
+		unexposed += "_"
+	}
+	return unexposed
 }
 
 // commentText prepares free text from the schema for a '//' comment at the
